@@ -213,7 +213,12 @@ def in_child(fn, *args, timeout=None):
             except Exception:
                 import traceback
                 payload = ('err', traceback.format_exc()[-3000:])
-            data = pickle.dumps(payload, protocol=pickle.HIGHEST_PROTOCOL)
+            try:
+                data = pickle.dumps(payload, protocol=pickle.HIGHEST_PROTOCOL)
+            except BaseException:
+                import traceback
+                data = pickle.dumps(('err', 'result could not be pickled: ' +
+                                     traceback.format_exc()[-2000:]))
             with os.fdopen(w, 'wb') as f:
                 f.write(data)
             code = 0
